@@ -36,7 +36,7 @@ enum Sym {
 
 enum Tree {
     Leaf(L, Tok, L),
-    Err(ErrorRecovery<L, Tok, u64>),
+    Err(ErrorRecovery<L, Tok, u64>, L, L),
     Node(usize, Vec<Tree>),
 }
 
@@ -89,7 +89,7 @@ impl Def {
                     None
                 }
             }
-            Tree::Err(_) => Some(Sym::T(self.t.nterm.wrapping_sub(1))),
+            Tree::Err(..) => Some(Sym::T(self.t.nterm.wrapping_sub(1))),
             Tree::Node(p, _) => self.t.prods.get(*p).map(|x| Sym::N(x.0)),
         }
     }
@@ -128,7 +128,7 @@ fn first_leaf_id(kids: &[Tree]) -> u64 {
     fn go(t: &Tree) -> Option<u64> {
         match t {
             Tree::Leaf(_, k, _) => Some(k.id),
-            Tree::Err(_) => None,
+            Tree::Err(..) => None,
             Tree::Node(_, ks) => ks.iter().find_map(go),
         }
     }
@@ -176,8 +176,12 @@ impl ParserDefinition for Def {
     fn token_to_symbol(&self, _i: usize, _token: Tok) -> Tree {
         unreachable!("the runtime passes the token separately; see shift below")
     }
-    fn expected_tokens(&self, _state: i32) -> Vec<String> {
-        unreachable!()
+    // the generated __expected_tokens: terminals with a non-error action in the state
+    fn expected_tokens(&self, state: i32) -> Vec<String> {
+        (0..self.t.nnames)
+            .filter(|&i| self.action_raw(state, i) != 0)
+            .map(|i| i.to_string())
+            .collect()
     }
     fn expected_tokens_from_states(&self, states: &[i32]) -> Vec<String> {
         (0..self.t.nnames)
@@ -189,7 +193,7 @@ impl ParserDefinition for Def {
         self.t.recovery
     }
     fn error_recovery_symbol(&self, recovery: sm::ErrorRecovery<Self>) -> Tree {
-        Tree::Err(recovery)
+        Tree::Err(recovery, 0, 0)
     }
     fn reduce(
         &mut self,
@@ -229,10 +233,10 @@ impl ParserDefinition for Def {
         }
         if let Some(e) = self.oracle.get(&(p, first_leaf_id(&kids))) {
             // a failing action is logged as 1000000 + p
-            self.acts.borrow_mut().push(1000000 + p as i64);
+            self.acts.borrow_mut().extend([1000000 + p as i64, 0, 0]);
             return Some(Err(ParseError::User { error: *e }));
         }
-        self.acts.borrow_mut().push(p as i64);
+        self.acts.borrow_mut().extend([p as i64, start, end]);
         symbols.push((start, Tree::Node(p, kids), end));
         let len = states.len();
         states.truncate(len - k);
@@ -287,8 +291,8 @@ fn ser_tree(o: &mut Vec<i64>, t: &Tree) {
             o.push(10);
             ser_tok(o, *lo, k, *hi);
         }
-        Tree::Err(r) => {
-            o.push(11);
+        Tree::Err(r, lo, hi) => {
+            o.extend([11, *lo, *hi]);
             ser_err(o, &r.error);
             o.push(r.dropped_tokens.len() as i64);
             for d in &r.dropped_tokens {
@@ -331,7 +335,7 @@ impl ParserDefinition for DefWrap {
         self.0.expected_tokens_from_states(states)
     }
     fn uses_error_recovery(&self) -> bool { self.0.uses_error_recovery() }
-    fn error_recovery_symbol(&self, r: sm::ErrorRecovery<Self>) -> Tree { Tree::Err(r) }
+    fn error_recovery_symbol(&self, r: sm::ErrorRecovery<Self>) -> Tree { Tree::Err(r, 0, 0) }
     fn reduce(
         &mut self,
         action: i32,
@@ -340,10 +344,16 @@ impl ParserDefinition for DefWrap {
         symbols: &mut Vec<sm::SymbolTriple<Self>>,
     ) -> Option<sm::ParseResult<Self>> {
         // stamp leaf spans from the triples before handing over
-        for s in symbols.iter_mut() {
-            if let Tree::Leaf(lo, _, hi) = &mut s.1 {
-                *lo = s.0;
-                *hi = s.2;
+        // only the symbols this reduce is about to pop need their spans
+        let k = self.0.t.prods.get(action as usize).map(|x| x.1.len()).unwrap_or(0);
+        let n = symbols.len();
+        for s in symbols[n.saturating_sub(k)..].iter_mut() {
+            match &mut s.1 {
+                Tree::Leaf(lo, _, hi) | Tree::Err(_, lo, hi) => {
+                    *lo = s.0;
+                    *hi = s.2;
+                }
+                _ => {}
             }
         }
         self.0.reduce(action, start_location, states, symbols)
@@ -445,7 +455,7 @@ fn main() {
                 let pc = pulled.clone();
                 let lg = acts.clone();
                 let iter = items.into_iter().map(move |x| {
-                    lg.borrow_mut().push(-(pc.get() + 1));
+                    lg.borrow_mut().extend([-(pc.get() + 1), 0, 0]);
                     pc.set(pc.get() + 1);
                     x
                 });
@@ -468,7 +478,7 @@ fn main() {
                 }
                 o.push(pulled.get());
                 let a = acts.borrow();
-                o.push(a.len() as i64);
+                o.push((a.len() / 3) as i64);
                 o.extend(a.iter().copied());
                 let s: Vec<String> = o.iter().map(|x| x.to_string()).collect();
                 writeln!(out, "{}", s.join(" ")).unwrap();
